@@ -253,7 +253,9 @@ class CHECK(Check):
                   "Generated/MergeCallers.lean): a single column is passed through unchanged (not stringified) and is "
                   "injective too, >= 2 columns are merged, control features use the same function under the same test, "
                   "and every fit-time and the predict-time call site reach the same encoder (encode_single/multi/"
-                  "injective, control_uses_same_encoder, fit_predict_same_encoder, predict_selects_same_tuple).")
+                  "injective, control_uses_same_encoder, fit_predict_same_encoder, predict_selects_same_tuple); the partition of the "
+                  "callers' group ids equals MetricFrame's cells at every width >= 1 (encode_partition_eq_metricframe). The "
+                  "interpolation_dict lookup at predict time is correspondence only.")
     design_ref = "DESIGN.md section 4, C13"
     quick_cases = 600
     thorough_cases = 6000
